@@ -480,6 +480,9 @@ func c08(c *Ctx) {
 	c.Rule("R8", "E4 role agreement", "exponential collect methods: positive/negative bucket roles agree in delta and cumulative (= C07.R7)", 2)
 	ruleSignRoles(c, ax, "R8")
 
+	c.Rule("R9", "E8 fieldcover on every path (shared)", "delta and cumulative collect methods rewrite every field of the recycled output points in every iteration (= C07.R10): a delta and a cumulative reader of one instrument report the same optional fields (Sum, Min, Max)", 4)
+	ruleRecycledPoints(c, ax, "R9")
+
 	c.Rule("R7", "E3 + E2 (shared)", "callbacks run before compute (= C02.R6); observable kinds get precomputed aggregators (= C02.R9)", 20)
 	if fn := mx.Func("(*pipeline).produce"); fn != nil {
 		g := mx.FG(fn)
